@@ -207,3 +207,14 @@ Theorem C11_ring_corners :
                pent (every_nth (Z.to_nat (segs_of segs c)) cs)).
 Proof. exact (@cell_to_boundary_corners). Qed.
 Print Assumptions C11_ring_corners.
+
+(* ---- Interval model soundness: the executable interval instance (used by the correspondence check) encloses the
+   ideal-real instance about which the theorems of this file speak.  [encl i x] = the real x lies in the interval i;
+   [sound_opt rel a b] = whenever the interval run answers [Some], the real run answers [Some] with a related value
+   (the interval run may give up with [None], never answer differently). ---- *)
+From A5 Require Import Num.IvInst Num.IvSound Geo.IvSoundGeo Geo.IvSoundCell.
+
+Theorem C11_interval_boundary_sound : forall id segs closed,
+  sound_opt (rout (Forall2 encl2)) (cell_to_boundary IvInst id segs closed) (cell_to_boundary RInst id segs closed).
+Proof. exact cell_to_boundary_sound. Qed.
+Print Assumptions C11_interval_boundary_sound.
